@@ -250,7 +250,7 @@ func (m *mrun) run(tid int, fault int) bool {
 			e := m.s.idp.log[len(m.s.idp.log)-1]
 			rt = int64(tokenID(e.RT))
 			switch {
-			case e.Mode == "4xx" || (e.Mode == "" && !e.Accepted):
+			case e.Mode == "4xx" || e.Mode == "4xxtext" || (e.Mode == "" && !e.Accepted):
 				res = 4
 			case e.Mode == "5xx":
 				res = 5
@@ -402,7 +402,7 @@ func (m *mrun) randomFaults(rng *mrand.Rand, rate int) []int {
 	var fs []int
 	for i := 0; i < 12; i++ {
 		if rng.Intn(100) < rate {
-			fs = append(fs, pick(rng, fStore, fStore, fIdp4xx, fIdp5xx, fIdpErr))
+			fs = append(fs, pick(rng, fStore, fStore, fIdp4xx, fIdp5xx, fIdpErr, fIdp4xxText))
 		} else {
 			fs = append(fs, 0)
 		}
@@ -772,7 +772,7 @@ func runMachine(args []string) error {
 			for _, kind := range []string{"p", "f", "i", "r", "lo", "ll", "fc"} {
 				for region := 0; region < 3; region++ {
 					for pos := 0; pos < 7; pos++ {
-						for _, f := range []int{fStore, fIdp4xx, fIdp5xx, fIdpErr} {
+						for _, f := range []int{fStore, fIdp4xx, fIdp5xx, fIdpErr, fIdp4xxText} {
 							for _, persist := range []int{1, 2, 30} {
 								if !mine() {
 									continue
